@@ -128,11 +128,15 @@ where
             }
 
             if !inline {
-                ctx_lock.set_client_frames(
-                    create_frames(channel, session_id)
-                        .await
-                        .context("create frames")?,
-                );
+                let frames = create_frames(channel, session_id).await;
+                if frames.is_err() {
+                    // this listener can not provide the requested channel: tell the client
+                    let socket = ctx_lock.borrow_client_stream().unwrap();
+                    HttpResponse::new(400, "Bad Request")
+                        .write_to(socket)
+                        .await?;
+                }
+                ctx_lock.set_client_frames(frames.context("create frames")?);
             }
         } else {
             HttpResponse::new(400, "Bad Request")
